@@ -204,13 +204,6 @@ theorem compileRoutines_w {ms : Macros} (hms : MsW ms) : ∀ (rs : List Routine)
 
 /-! ### the front end -/
 
-/-- the decidable guard of `frontend_wfl` -/
-def FrontGuard (p : Program) : Prop :=
-  NoUserJumpOps p ∧ (∀ m ∈ p.macros, wStmts m.body = true ∧ (dfStmts m.body).Nodup) ∧
-  (∀ r ∈ p.routines, wStmts r.body = true) ∧ (p.routines.flatMap fun r => dfStmts r.body).Nodup
-
-instance (p : Program) : Decidable (FrontGuard p) := by unfold FrontGuard; infer_instance
-
 theorem get?_isSome_any (d : List (String × Nat)) (n : String) : (Dict.get? d n).isSome = d.any fun kv => kv.1 == n := by
   induction d with
   | nil => rfl
